@@ -36,7 +36,7 @@ def gates(tier):
                         "cfg.expected_length": 40 * k},
         "shapes": {c: 3 * k for c in ["nonlinear_scc", "repeated_symbol", "duplicate_rule", "unary_cycle", "nullable_cycle",
                                       "recursive", "finite_language", "sr:Log", "sr:MaxPlus", "sr:Expectation", "sr:Entropy",
-                                      "sr:Real", "sr:Boolean", "sr:MaxTimes", "finite-language-sum", "staged-build"]},
+                                      "sr:Real", "sr:Boolean", "sr:MaxTimes", "finite-language-sum", "staged-build", "log-tiny-weights"]} | {"big-slow-scc": 1},
         "min_events": {"agenda.reordered": 200 * k},
         "min_hashseeds": 2,
     }
@@ -53,9 +53,33 @@ def gen_case(rng, spec):
     if R == "Q" and "recursive" in an["classes"]:
         R = rng.choice(["Float", "Log", "MaxPlus"])
     case = {"g": {k: g[k] for k in ("S", "V", "rules")}, "R": R}
+    if R == "Log" and rng.random() < 0.3:
+        # tiny log-weights (products around exp(-40)): exact rationals, still convergent
+        from fractions import Fraction as Fr
+
+        sc = Fr(1, 2 ** rng.choice([30, 50]))
+        case["g"]["rules"] = [[w * sc if rng.random() < 0.5 else w, h, b] for w, h, b in case["g"]["rules"]]
+        case["tiny"] = True
+    if rng.random() < 0.04:
+        case = big_cycle_case(rng)
     if rng.random() < 0.25 and len(g["rules"]) >= 3:
         case["staged"] = rng.randint(1, len(g["rules"]) - 1)
     return case
+
+
+def big_cycle_case(rng):
+    """size threshold: one large, slowly converging SCC (contraction 0.9-0.95): thousands of agenda pops"""
+    from fractions import Fraction as Fr
+
+    N = rng.randint(40, 70)
+    c = rng.choice([Fr(9, 10), Fr(15, 16), Fr(19, 20)])
+    rules = []
+    for i in range(N):
+        rules.append([c, f"X{i}", [f"X{(i + 1) % N}"] if rng.random() < 0.7 else ["a", f"X{(i + 1) % N}"]])
+        if i % 7 == 0:
+            rules.append([Fr(1, 16), f"X{i}", ["a"]])
+    rng.shuffle(rules)
+    return {"g": {"S": "X0", "V": ["a"], "rules": rules}, "R": rng.choice(["Float", "Real", "Log"]), "big_cycle": N}
 
 
 def run_case(case, ctx):
@@ -81,6 +105,10 @@ def run_case(case, ctx):
         ctx.skip("case", f"oracle-not-applicable:{type(e).__name__}")
         return
     fp = codec.fingerprint(case)
+    if case.get("big_cycle"):
+        cls = list(cls) + ["big-slow-scc"]
+    if case.get("tiny"):
+        cls = list(cls) + ["log-tiny-weights"]
     ctx.case(fp, "recursive" in cls, list(cls) + [f"sr:{R}"])
     ctx.sample({"case": case, "classes": cls, "Z_S": lib.want_value(R, Z[g["S"]]) if not pair else [Z[g["S"]], rr[g["S"]]]})
     if case.get("staged"):
@@ -105,12 +133,20 @@ def run_case(case, ctx):
             return
     exact = R in ("Boolean", "MaxTimes", "MaxPlus", "Q")
 
+    import math
+
     def cmp(have, X):
         if pair:
             return close2(lib.have_value(R, have), (Z[X], rr[X]))
         if exact:
             return lib.same(R, have, Z[X], exact=True)
-        return close2(lib.have_value(R, have), lib.want_value(R, Z[X]))
+        if R == "Log":
+            # log-weights are compared in log space (tiny totals matter as much as large ones)
+            sc = float(have.score) if hasattr(have, "score") else float("nan")
+            if Z[X] == 0:
+                return sc == -math.inf
+            return abs(sc - (math.log(Z[X].numerator) - math.log(Z[X].denominator) if hasattr(Z[X], "numerator") else math.log(Z[X]))) <= 1e-6
+        return close2(lib.have_value(R, have), lib.want_value(R, Z[X]), 1e-8, 1e-9 * float(case.get("scale", 1)))
 
     def wantv(X):
         return [Z[X], rr[X]] if pair else lib.want_value(R, Z[X])
